@@ -46,6 +46,7 @@ type World struct {
 	constGlobals        map[*ssa.Global]*ssa.Const
 	constStringSets     map[*ssa.Global][]string
 	bigIntGlobals       map[*ssa.Global]string
+	singleStore         map[*ssa.Alloc]bool
 	parametric          map[*ssa.Function]bool
 	reachMemo           map[[2]*ssa.Function]bool
 }
